@@ -567,3 +567,178 @@ Example c01_query_ex :
   [[]; []; [(3%N, FanoutQueryC01.QDesc true true 2)];
    [(3%N, FanoutQueryC01.QData Fanout.TChn 0%N 2 102%N); (3%N, FanoutQueryC01.QData Fanout.TChn 0%N 1 101%N); (3%N, FanoutQueryC01.QCtrl 208)]].
 Proof. exact FanoutQueryC01Proofs.wq_ok. Qed.
+
+(* ================================================================== *)
+(* A {pub} that lists ATTACHMENTS (extra.attachments): model Sys/TopicAttC01.v -
+   saveAndBroadcastMessage + messagesMapper.Save with the attachment URLs (none / several; URLs
+   without a file id, well-formed ids without an upload record, uploaded files) under every
+   fault plan of the save path: TopicUpdateOnMessage, MessageSave, SubsUpdate and
+   FileLinkAttachments, the LAST store call of a publish, whose error is the save's error
+   although the topic row and the message row are already written. *)
+From Tinode Require Import Sys.TopicAttC01 Sys.TopicAttC01Proofs.
+
+(* Every publish, whatever its attachments and the fault plan, ends in one of three ways:
+   refused with nothing stored and lastID unchanged; accepted under lastID+1 (acknowledged,
+   stored, broadcast with that number, never stored before); or refused at the attachment-link
+   call - message lastID+1 is stored, lastID is NOT advanced - which happens only when the link
+   can fail (an unknown file id, or the fault plan hits that call). *)
+Theorem c01_att_publish : forall f s c n sid u content noecho atts,
+  let h := publish_att f s c n sid u content noecho atts in
+  att_refused s c sid h \/ att_accepted s c sid u content noecho h \/
+  (att_link_failed s c sid u content h /\ link_safe_c01a f c u n atts = false).
+Proof. exact publish_att_cases. Qed.
+
+(* "a publish whose save failed consumes no number", on the topic's counter: a publish that
+   acknowledges nothing leaves lastID (the whole cache) as it was - for every attachment list and
+   every failing or crashing store call, the link call included. *)
+Theorem c01_att_failed_publish_keeps_lastid : forall f s c n sid u content noecho atts,
+  no_ack (h_out (publish_att f s c n sid u content noecho atts)) ->
+  h_ca (publish_att f s c n sid u content noecho atts) = c.
+Proof. exact publish_att_failed_keeps_cache. Qed.
+
+(* The full clause - such a publish also leaves no message behind, so that the number stays
+   free for the next accepted message - is REFUTED by the faithful model: the owner publishes
+   with one well-formed URL of a file that was never uploaded, no store fault at all. *)
+Definition c01_att_failed_publish_stores_nothing_statement : Prop :=
+  forall f s c n sid u content noecho atts,
+    no_ack (h_out (publish_att f s c n sid u content noecho atts)) ->
+    msgs (h_st (publish_att f s c n sid u content noecho atts)) = msgs s.
+Theorem c01_att_failed_publish_stores_nothing_refuted : ~ c01_att_failed_publish_stores_nothing_statement.
+Proof.
+  intros H. specialize (H NoFault att_wit_store att_wit_cache 0%nat 1%N 1%N 7%N false [AttUnknown]).
+  destruct att_wit_facts as (O & _ & M & S0). fold att_wit in H.
+  assert (msgs (h_st att_wit) = msgs att_wit_store) as E.
+  { apply H. rewrite O. apply no_ack_single. }
+  rewrite E, S0 in M. discriminate.
+Qed.
+(* ... and holds whenever the attachment link cannot fail: every listed file id is known and the
+   fault plan does not hit the link call (any other failing or crashing call is allowed). *)
+Theorem c01_att_failed_publish_stores_nothing_partial : forall f s c n sid u content noecho atts,
+  link_safe_c01a f c u n atts = true ->
+  no_ack (h_out (publish_att f s c n sid u content noecho atts)) ->
+  att_refused s c sid (publish_att f s c n sid u content noecho atts).
+Proof. exact publish_att_failed_stores_nothing. Qed.
+
+(* No number is issued twice even then: while message lastID+1 is stored every publish is
+   refused with lastID unchanged - so after a refusal at the link call the topic accepts no
+   publish at all until it is reloaded (the reload restores lastID from the stored mark). *)
+Theorem c01_att_taken_number_never_issued : forall f s c n sid u content noecho atts,
+  In (c_lastid c + 1) (seqs s) ->
+  att_refused s c sid (publish_att f s c n sid u content noecho atts).
+Proof. exact publish_att_taken_number_refused. Qed.
+Theorem c01_att_link_failure_blocks_topic : forall f s c n sid u content noecho atts,
+  att_link_failed s c sid u content (publish_att f s c n sid u content noecho atts) ->
+  forall f' n' sid' u' content' noecho' atts',
+    let h := publish_att f s c n sid u content noecho atts in
+    att_refused (h_st h) c sid' (publish_att f' (h_st h) (h_ca h) n' sid' u' content' noecho' atts').
+Proof. exact link_failure_blocks. Qed.
+
+(* Attachments that name no file (URLs of another directory, names without an id) change nothing:
+   the history is a history of the base model with the attachments erased, so every theorem of
+   the first part (invariant, restart above everything shown, monotone mark) covers it. *)
+Theorem c01_att_no_file_ids_simulation : forall dr nr sm h x,
+  forallb (fun fo => no_file_ids_c01a (snd fo)) h = true ->
+  arun dr nr sm x h = run dr nr sm x (map (fun fo => (fst fo, base_op_c01a (snd fo))) h).
+Proof. intros dr nr sm h x. exact (arun_no_ids dr nr sm h x). Qed.
+Theorem c01_att_no_file_ids_invariant : forall dr nr sm s h, fresh s ->
+  forallb (fun fo => no_file_ids_c01a (snd fo)) h = true ->
+  inv_num (fst (arun dr nr sm (mkState s None 0) h)).
+Proof. intros dr nr sm s h F E. rewrite (arun_no_ids dr nr sm h _ E). apply run_inv_num. apply fresh_inv. exact F. Qed.
+
+Print Assumptions c01_att_publish.
+Print Assumptions c01_att_failed_publish_keeps_lastid.
+Print Assumptions c01_att_failed_publish_stores_nothing_refuted.
+Print Assumptions c01_att_failed_publish_stores_nothing_partial.
+Print Assumptions c01_att_taken_number_never_issued.
+Print Assumptions c01_att_link_failure_blocks_topic.
+Print Assumptions c01_att_no_file_ids_simulation.
+Print Assumptions c01_att_no_file_ids_invariant.
+
+(* non-vacuity: uploaded files are linked and the numbers run on; a failing first or second store
+   call of a publish WITH attachments consumes nothing (2 is issued next); the unknown file id
+   stores message 3 without advancing lastID and the next publish is refused *)
+Example c01_att_ex :
+  let s0 := ad_sub_create (mkStore true 0 0 0 47 0 [] [] [] [(1%N, 47%N)]) 1%N 255%N 255%N in
+  let r := arun (fun _ _ => None) (fun x => x) [(1%N, 1%N)] (mkState s0 None 0)
+               [(NoFault, ABase (OSub 1 [] false)); (NoFault, APubAtt 1 7 false [AttKnown; AttJunk]);
+                (FailAt 1, APubAtt 1 8 false [AttKnown]); (FailAt 2, APubAtt 1 8 false [AttKnown; AttKnown]);
+                (NoFault, APubAtt 1 9 false [AttKnown]); (NoFault, APubAtt 1 10 false [AttUnknown]);
+                (NoFault, APubAtt 1 11 false [])] in
+  map (fun o => out_seqs o) (snd r) = [[]; [1; 1; 1]; []; []; [2; 2; 2]; []; []] /\
+  map m_seq (msgs (st (fst r))) = [1; 2; 3] /\
+  match ca (fst r) with Some c => c_lastid c = 2 | None => False end.
+Proof. vm_compute. repeat split; reflexivity. Qed.
+
+(* ================================================================== *)
+(* "the number acknowledged is the number EVERY recipient and every later query shows": the
+   two wire encodings of a frame (JSON; protobuf for gRPC clients, server/pbconverter.go) -
+   model Sys/DescEncC01.v.  The protobuf fields are int32(...) of the Go int. *)
+From Tinode Require Import Sys.DescEncC01 Sys.DescEncC01Proofs.
+
+(* full statement: every frame shows the same number in both encodings - refuted by the faithful
+   model for a number that does not fit 32 bits (message 2^31 of one topic) ... *)
+Definition c01_number_same_in_every_encoding_statement : Prop :=
+  forall fr, shown_num_c01e EncPB fr = shown_num_c01e EncJSON fr.
+Theorem c01_number_same_in_every_encoding_refuted : ~ c01_number_same_in_every_encoding_statement.
+Proof. intros H. exact (shown_wit (H _)). Qed.
+(* ... and true for every {data}, {meta desc} and 202 acknowledgement whose number fits *)
+Theorem c01_number_same_in_every_encoding_partial : forall fr, fits_int32_c01e fr = true ->
+  shown_num_c01e EncPB fr = shown_num_c01e EncJSON fr.
+Proof. exact shown_same_when_fits. Qed.
+(* with c01_publish / c01_att_publish: the acknowledgement and every broadcast copy of an accepted
+   publish show lastID+1 in both encodings *)
+Theorem c01_accepted_number_in_every_encoding : forall e c skip seq u content x,
+  -2147483648 <= seq < 2147483648 ->
+  In x (fanout_data c skip (Data seq u content)) -> shown_num_c01e e (snd x) = Some seq.
+Proof.
+  intros e c skip seq u content x R H. rewrite (fanout_data_frames _ _ _ _ H).
+  destruct e; cbn [shown_num_c01e enc_num_c01e]; [reflexivity|]. rewrite int32_id by lia. reflexivity.
+Qed.
+
+Print Assumptions c01_number_same_in_every_encoding_refuted.
+Print Assumptions c01_number_same_in_every_encoding_partial.
+Print Assumptions c01_accepted_number_in_every_encoding.
+
+(* ================================================================== *)
+(* Two near-simultaneous {sub} to a topic that is NOT loaded (Hub.run registers the paused
+   instance before `go topicInit`): model Sys/HubJoinC01.v.  Every order of: the hub takes a
+   join / a load completes / an attached session's publish is handled. *)
+From Tinode Require Import Sys.HubJoinC01 Sys.HubJoinC01Proofs.
+
+(* at most one Topic instance is ever created for the name, whatever the order of events *)
+Theorem c01_join_single_instance : forall seqid rows h, (forall n, In n rows -> n <= seqid) ->
+  (length (j_insts (fst (jrun true (jinit seqid rows) h))) <= 1)%nat.
+Proof. intros seqid rows h H. apply jinv_one_instance. apply jrun_inv. apply jinit_inv. exact H. Qed.
+
+(* hence every number is passed to MessageSave once and no publish of an attached writer is
+   refused for a number that is already taken *)
+Theorem c01_join_numbers_saved_once : forall seqid rows h, (forall n, In n rows -> n <= seqid) ->
+  let x := fst (jrun true (jinit seqid rows) h) in
+  NoDup (map fst (j_saves x)) /\ (forall p, In p (j_saves x) -> snd p = true).
+Proof.
+  intros seqid rows h H x. destruct (jrun_inv h _ (jinit_inv seqid rows H)) as (_ & B & C & _).
+  split; [exact C|]. intros p Hp. apply (B p Hp).
+Qed.
+
+(* what the early registration is for: with the registration at the end of topicInit the same
+   statement is refuted (both joins taken before either load completes: two instances, both number
+   from the same stored mark) *)
+Definition c01_join_late_registration_statement : Prop :=
+  forall seqid rows h, (forall n, In n rows -> n <= seqid) ->
+    NoDup (map fst (j_saves (fst (jrun false (jinit seqid rows) h)))).
+Theorem c01_join_late_registration_refuted : ~ c01_join_late_registration_statement.
+Proof.
+  intros H. specialize (H 0 [] join_wit (fun n (F : In n []) => match F with end)).
+  destruct join_wit_late as (_ & S & _). cbn zeta in S. rewrite S in H. cbn in H.
+  inversion H as [|a l NI _]. apply NI. left. reflexivity.
+Qed.
+
+Print Assumptions c01_join_single_instance.
+Print Assumptions c01_join_numbers_saved_once.
+Print Assumptions c01_join_late_registration_refuted.
+
+Example c01_join_ex :
+  let r := jrun true (jinit 0 []) (join_wit ++ [JJoin 2; JPub 2]) in
+  j_saves (fst r) = [(1, true); (2, true)] /\
+  snd r = [[]; [JCtrl 2 503]; [JCtrl 1 200]; []; [JAck 1 1]; [JCtrl 2 409]; [JCtrl 2 200]; [JAck 2 2]].
+Proof. vm_compute. split; reflexivity. Qed.
